@@ -44,3 +44,11 @@ claim("C15",
       "delimiter, so distinct boxes share a leaf; recorded in known_findings.json, every other obligation stays live.",
       "Encoded blobs are opaque byte strings of symbolic length <= 3 (thorough <= 6); addresses fully symbolic. The truncated (31-byte) digest is idealised as collision free. "
       "EncodeReflect(totals) is an opaque byte string (reflection is not encodable).")
+
+claim("C06",
+      "Bounded model check of the real voteTracker.handle (with overThreshold, count, genBundle, makeBundle, reachesQuorum and the sort in genBundle) from the empty tracker over EVERY sequence of L votes "
+      "by S senders for 2 values, per-sender weight and step threshold fully symbolic, one harness per step kind (soft, cert, next). After every vote a ghost reference recomputes each value's weight counting each "
+      "equivocator once for every value; decided: tracker counts == reference, a threshold event is returned iff a value's weight first reaches the threshold (at most once), for such a value, with the right kind; "
+      "duplicates and votes of known equivocators are silent and add no weight; the returned bundle's votes are all for that value, senders distinct and disjoint from its equivocation pairs, weights sum >= threshold.",
+      "Quick: L=4, S=2; thorough: L=4, S=3. Histories entering the tracker's own Panicf guards (too many equivocators / two values over threshold = the honest-supermajority assumption) are outside the domain; "
+      "any runtime panic is a violation. Weights in [1, 2^60), threshold in [1, 2^62). Tracer/telemetry are no-ops; map iteration in insertion order.")
